@@ -102,6 +102,17 @@ func sweepQueries(u *universe, repos []string) []Query {
 				Query{K: "Referrers", Repo: r, Dig: d, What: m.Name})
 		}
 		qs = append(qs, Query{K: "GetManifest", Repo: r, Dig: unknownDig, What: "unknown"})
+		// blobs and manifests are separate tables: a digest known as one is not thereby known as the other
+		// (asked after the digest has been resolved in its own table, so that anything remembered from
+		// that answer is in place)
+		for _, m := range u.Manifests[:2] {
+			d := string(sha256Digest(m.Data))
+			qs = append(qs, Query{K: "ResolveBlob", Repo: r, Dig: d, What: m.Name + "-as-blob"}, Query{K: "GetBlob", Repo: r, Dig: d, What: m.Name + "-as-blob"})
+		}
+		if len(u.Blobs) > 1 {
+			d := string(sha256Digest(u.Blobs[1]))
+			qs = append(qs, Query{K: "ResolveManifest", Repo: r, Dig: d, What: "b1-as-manifest"}, Query{K: "GetManifest", Repo: r, Dig: d, What: "b1-as-manifest"})
+		}
 		for _, t := range append(append([]string(nil), u.Tags...), "nosuchtag") {
 			qs = append(qs, Query{K: "GetTag", Repo: r, Tag: t}, Query{K: "ResolveTag", Repo: r, Tag: t})
 		}
